@@ -13,7 +13,16 @@ namespace PdshVerif.Cbuf.Spec
 structure RFifo where
   f    : Fifo
   hist : List UInt8
+  /-- some byte written since the buffer was created or flushed is no longer held, i.e. the
+      history does not begin at the beginning of the stream (`got_wrap` in cbuf.c).  Only the
+      line-level replay calls look at it: the oldest held byte starts a line iff nothing was lost. -/
+  wrapped : Bool
   deriving Repr, Inhabited
+
+/-- the flag after a writing operation that physically stored `phys` bytes and left the FIFO `f'`:
+    set as soon as history + unread + stored bytes exceed the capacity -/
+def wrappedAfterWrite (r : RFifo) (phys : Nat) (f' : Fifo) : Bool :=
+  r.wrapped || decide (r.hist.length + r.f.q.length + phys > f'.size)
 
 /-- history after a writing operation that accepted `acc` and left the FIFO `f'` -/
 def histAfterWrite (r : RFifo) (acc : List UInt8) (f' : Fifo) : List UInt8 :=
@@ -33,7 +42,7 @@ def rewind (r : RFifo) (len : Int) : Int × RFifo :=
   if len < -1 then (-1, r)
   else
     let n := if len = -1 then r.hist.length else min len.toNat r.hist.length
-    (n, { f := { r.f with q := lastN n r.hist ++ r.f.q }, hist := r.hist.take (r.hist.length - n) })
+    (n, { r with f := { r.f with q := lastN n r.hist ++ r.f.q }, hist := r.hist.take (r.hist.length - n) })
 
 /-- a descriptor that takes `cap` more bytes: what arrives there and what the call returns -/
 def sinkRet (want : List UInt8) (cap : Nat) : Int × List UInt8 :=
@@ -47,7 +56,7 @@ def peekToFd (r : RFifo) (len : Int) (cap : Nat) : Int × List UInt8 :=
 
 def readToFd (r : RFifo) (len : Int) (cap : Nat) : Int × List UInt8 × RFifo :=
   let (n, bs) := peekToFd r len cap
-  (n, bs, { f := { r.f with q := r.f.q.drop bs.length }, hist := r.hist ++ bs })
+  (n, bs, { r with f := { r.f with q := r.f.q.drop bs.length }, hist := r.hist ++ bs })
 
 /-- `cbuf_replay_to_fd`: -1 asks for as many bytes as the buffer has free -/
 def replayToFd (r : RFifo) (len : Int) (cap : Nat) : Int × List UInt8 :=
@@ -61,13 +70,16 @@ def copy (src dst : RFifo) (len : Int) (sz : Nat) : Option (Int × Nat × RFifo)
   else
     let bs := if len = -1 then src.f.q else src.f.q.take len.toNat
     (write dst.f bs sz).map fun (ret, nd, f') =>
-      (ret, nd, { f := f', hist := histAfterWrite dst (bs.take ret.toNat) f' })
+      (ret, nd, { f := f', hist := histAfterWrite dst (bs.take ret.toNat) f',
+                  -- `cbuf_copier` stores at most `size` bytes ("prevents copying data that will be
+                  -- overwritten if the cbuf wraps multiple times")
+                  wrapped := wrappedAfterWrite dst (min ret.toNat f'.size) f' })
 
 /-- `cbuf_move` = copy, then the copied bytes are consumed from `src` -/
 def move (src dst : RFifo) (len : Int) (sz : Nat) : Option (Int × Nat × RFifo × RFifo) :=
   (copy src dst len sz).map fun (ret, nd, dst') =>
     (ret, nd,
-      { f := { src.f with q := src.f.q.drop ret.toNat }, hist := src.hist ++ src.f.q.take ret.toNat },
+      { src with f := { src.f with q := src.f.q.drop ret.toNat }, hist := src.hist ++ src.f.q.take ret.toNat },
       dst')
 
 end PdshVerif.Cbuf.Spec
